@@ -550,7 +550,7 @@ func isKindCmp(info *types.Info, e ast.Expr, recv types.Object) string {
 // ---------------------------------------------------------------------------
 
 func c14Transfers(p *Prog, r *Report) {
-	r.Rule("C14.R6", "the overlaid value is the one the run uses: every Config field is read somewhere in the program (a key nobody reads cannot take effect); in the reader, each transfer of a field into the run's state comes after the batch-line overlay, is unconditional, copies the field itself (plain, converted, or divided by 100 for a field documented in %), reads the overlaid variable, and no state variable is fed from the configuration twice", 73)
+	r.Rule("C14.R6", "the overlaid value is the one the run uses: every Config field is read somewhere in the program (a key nobody reads cannot take effect); in the reader, each transfer of a field into the run's state comes after the batch-line overlay, is unconditional, copies the field itself (plain, converted, or divided by 100 for a field documented in %), reads the overlaid variable, and no state variable is fed from the configuration twice; nothing else in the program writes such a state variable (listed exceptions: altitude and CO2 from the weather file)", 99)
 	fi := p.Funcs["hermes.readConfig"]
 	if fi == nil {
 		r.Ob("readConfig", "-", false, "readConfig not found")
@@ -720,6 +720,31 @@ func c14Transfers(p *Prog, r *Report) {
 		}
 		return true
 	})
+	// (b2) nothing else in the program writes a state variable that carries a configured value (a later overwrite —
+	// a fallback for a "zero" value, a clamp — replaces what the line or the file gave)
+	writerExceptions := map[string]map[string]string{
+		"ALTI":    {"hermes.LoadYear": "the weather file's station altitude replaces the configured one (documented at the Config field)"},
+		"CO2KONZ": {"hermes.LoadYear": "a per-year CO2 column of the weather file replaces the configured concentration"},
+	}
+	seenT := map[string]bool{}
+	for _, name := range tkeys {
+		if seenT[name] || name == "ENDE" { // the end date has its own writer table under C05.R4
+			continue
+		}
+		seenT[name] = true
+		var others []string
+		for _, w := range fx.Writers(FieldRef{"GlobalVarsMain", name}) {
+			if w.Key == "hermes.readConfig" || strings.HasPrefix(w.Key, "hermes.NewDefault") || w.Key == "hermes.NewGlobalVarsMain" {
+				continue
+			}
+			if _, ok := writerExceptions[name][w.Key]; ok {
+				continue
+			}
+			others = append(others, strings.TrimPrefix(w.Key, "hermes."))
+		}
+		sort.Strings(others)
+		r.Ob("sole-writer:"+name, p.Pos(fi.Decl.Pos()), len(others) == 0, fmt.Sprintf("writers of %s besides the configuration reader and the listed exceptions (%d listed): %s", name, len(writerExceptions[name]), orStr(strings.Join(others, ", "), "none")))
+	}
 	// (c) no state variable fed twice, no field copied to two variables
 	sort.Strings(tkeys)
 	dupT := ""
